@@ -8,6 +8,7 @@ PROP = Property(
     "C06", "proof",
     kani=[KaniUnit(
         crate="mithril-stm",
+        jobs=6,
         attach=[(RE, "contracts/mithril-stm/c06_order.rs", "verif_c06")],
         anchors=[(VK, "compare_verification_keys", None), (RE, "cmp", "impl Ord for RegistrationEntry"), (CRE, "cmp", "impl Ord for ClosedRegistrationEntry"), (LF, "cmp", "impl Ord for MerkleTreeConcatenationLeaf")],
         harnesses=[
